@@ -127,6 +127,10 @@ class Run:
 
     def point(self, op):
         """Called by a worker: announce the next operation and wait to be scheduled."""
+        if self.aborting:
+            # the execution is being unwound (Abort travelling up the worker's stack): a lock operation performed by a finally
+            # clause or a with-statement exit on the way must not wait for the scheduler again
+            raise Abort()
         w = self.workers[self.tls.idx]
         w.pending = op
         self.ctrl.release()
